@@ -155,7 +155,9 @@ def stateful_eval(
         if restore
         else None
     )
-    stateful_nodes: dict[str, ast.Call] = {}
+    # (The same call may be written more than once in an expression; every
+    # occurrence must receive the state.)
+    stateful_nodes: list[tuple[str, ast.Call]] = []
     for node in ast.walk(code):
         if _is_stateful_transform(node, env):
             name = format_expr(node)
@@ -163,10 +165,10 @@ def stateful_eval(
                 name = restore_matcher.sub(
                     lambda match: f"`{restore[match.group(0)]}`", name
                 )
-            stateful_nodes[name] = cast(ast.Call, node)
+            stateful_nodes.append((name, cast(ast.Call, node)))
 
     # Mutate stateful nodes to pass in state from a shared dictionary.
-    for name, node in stateful_nodes.items():
+    for name, node in stateful_nodes:
         name = name.replace('"', r'\\\\"')
         if name not in state:
             state[name] = {}
